@@ -111,7 +111,10 @@ CHECKS.update({
                             "segments carry one 10 ms sample each; the expected request log is the ClientSelectModel of DESIGN Appendix C written from the statement",
                             "several rendition streams: per-stream sub-logs are compared (the global interleaving is the scheduler's); when one stream stops with an error the others may be cut short",
                             "a byte range without offset is generated either on a resource of its own (starts at 0) or after an explicit sub-range of the same resource (continues after it, RFC 8216 4.3.2.2)"]},
-    "C12": {"steps": [REPLAYS, rapid("term", "TestC12", 1200, 30000, qshards=8, tshards=14, shrinktime="45s", timeout={"quick": 900, "thorough": 3000})],
+    "C12": {"steps": [REPLAYS, rapid("term", "TestC12", 1200, 30000, qshards=8, tshards=14, shrinktime="45s", timeout={"quick": 900, "thorough": 3000},
+                                      # verdicts that are facts about one execution, not timing judgements: they count even
+                                      # when the replay (another OS schedule) does not show them again
+                                      hard_facts=[r"user callbacks were invoked after Wait\(\) yielded", r"a second value was received from Wait"])],
             "assumptions": ["a goroutine counts as leaked when a frame of gohlslib's client is still on its stack 3 s after Wait() yielded",
                             "a body that stalls until cancelled can only be ended by Close: the harness closes the client after 1.5 s and requires termination",
                             "when a Close races with the natural end of the stream either ErrClientEOS or the termination error is accepted"]},
